@@ -64,6 +64,9 @@ func opStep(r *core.RNG, pool *Pool, s *Swarm, d *genDID, kind ref.OpKind, fault
 		st.Origin, st.HasOrigin = genOrigin(r)
 		if kind == ref.Create && r.Chance(1, 4) {
 			st.EntityType = core.Pick(r, []string{"org", "person", "0001"})
+			if rx := r.Stream("exotic-type"); rx.Chance(1, 3) {
+				st.EntityType = core.Pick(rx, exoticStrings)
+			}
 		}
 	}
 	// anchoring window
